@@ -65,6 +65,12 @@ func (h *TextStreamBulkHandler) GetChannels(_ http.ResponseWriter, r *http.Reque
 	return h.channel, h.receive, true
 }
 
+// StreamError reports, once the element channel is closed, why the stream could not be read
+// to its end (nil when it could).
+func (h *TextStreamBulkHandler) StreamError() error {
+	return h.err
+}
+
 func (h *TextStreamBulkHandler) Terminate(w http.ResponseWriter, r *http.Request) {
 	select {
 	case <-h.terminated:
